@@ -104,7 +104,7 @@ var booleanFlags = map[string]bool{
 }
 
 var flagSet = flag.NewFlagSet("garble", flag.ExitOnError)
-var rxGarbleFlag = regexp.MustCompile(`-(?:literals|tiny|debug|debugdir|seed)(?:$|=)`)
+var rxGarbleFlag = regexp.MustCompile(`^--?(?:literals|tiny|debug|debugdir|seed)(?:$|=)`)
 
 var (
 	flagLiterals bool
@@ -356,9 +356,13 @@ This command wraps "go %s". Below is its help:
 %s`[1:], command, command, out)
 		return nil, errJustExit(2)
 	}
-	for _, flag := range flags {
+	for i := 0; i < len(flags); i++ {
+		flag := flags[i]
 		if rxGarbleFlag.MatchString(flag) {
 			return nil, fmt.Errorf("garble flags must precede command, like: garble %s build ./pkg", flag)
+		}
+		if !flagIsComplete(flag) {
+			i++ // skip the value in "-name value", which can be any string
 		}
 	}
 
